@@ -20,6 +20,7 @@ type Plan struct {
 	Sample   int   // number of draws (Domain sample)
 	Emit     bool  // false: design-level check only, nothing replayed
 	Access   bool  // also run the cases on the access node
+	History  bool  // every case under every announcement history of the eon's keyper set
 	NoKeyper bool  // do not run the cases through the keyper handlers (database double)
 	Heavy    bool  // millions of cases: TLC gets all workers, heavy plans run one after the other
 	Optional bool  // skipped when the time budget of the tier is used up before the plan starts
@@ -56,8 +57,8 @@ func (p Plan) cfg() string {
 		rule = "equal"
 	}
 	var b strings.Builder
-	fmt.Fprintf(&b, "CONSTANTS\n  LenRule = %q\n  Flavours = %s\n  NSet = %s\n  TSel = %s\n  Domain = %q\n  SampleNum = %d\n  Emit = %s\n",
-		rule, strSet(p.Flavours), intSet(p.NSet), intSet(tsel), dom, p.Sample, strings.ToUpper(fmt.Sprint(p.Emit)))
+	fmt.Fprintf(&b, "CONSTANTS\n  LenRule = %q\n  StoreRule = \"last\"\n  Flavours = %s\n  NSet = %s\n  TSel = %s\n  History = %s\n  Domain = %q\n  SampleNum = %d\n  Emit = %s\n",
+		rule, strSet(p.Flavours), intSet(p.NSet), intSet(tsel), strings.ToUpper(fmt.Sprint(p.History)), dom, p.Sample, strings.ToUpper(fmt.Sprint(p.Emit)))
 	fmt.Fprintf(&b, "SPECIFICATION %s\nINVARIANT Design\nINVARIANT EmitInv\nCHECK_DEADLOCK FALSE\n", spec)
 	return b.String()
 }
@@ -78,7 +79,7 @@ const mcModule = "MCgen_SigRule"
 var mcBody = []byte("---- MODULE " + mcModule + " ----\nEXTENDS SigRuleMC\n====\n")
 
 var internTab = map[string]string{"ok": "ok", "garbage": "garbage", "tampered": "tampered", "": "", "instance": "instance",
-	"eon": "eon", "slot": "slot", "txptr": "txptr", "ids": "ids", "gnosis": "gnosis", "service": "service"}
+	"eon": "eon", "slot": "slot", "txptr": "txptr", "ids": "ids", "gnosis": "gnosis", "service": "service", "idlen": "idlen", "S": "S", "X": "X"}
 
 func intern(s string) string {
 	if v, ok := internTab[s]; ok {
@@ -103,6 +104,9 @@ func parseCase(raw string) (Case, error) {
 	cs.F, cs.Mut = intern(cs.F), intern(cs.Mut)
 	for i := range cs.Sigs {
 		cs.Sigs[i].K, cs.Sigs[i].O = intern(cs.Sigs[i].K), intern(cs.Sigs[i].O)
+	}
+	for i := range cs.Ann {
+		cs.Ann[i] = intern(cs.Ann[i])
 	}
 	return cs, nil
 }
@@ -165,8 +169,13 @@ func (cs *Case) wellFormed() error {
 	if cs.N < 1 || cs.N > MaxMembers || cs.T < 0 {
 		return fmt.Errorf("n=%d t=%d", cs.N, cs.T)
 	}
-	if cs.Signers == nil || cs.Sigs == nil {
+	if cs.Signers == nil || cs.Sigs == nil || len(cs.Ann) == 0 || len(cs.Ann) > 4 {
 		return fmt.Errorf("missing list")
+	}
+	for _, a := range cs.Ann {
+		if a != "S" && a != "X" {
+			return fmt.Errorf("announcement %q", a)
+		}
 	}
 	for _, v := range cs.Signers {
 		if v < 0 || v > cs.N {
@@ -177,7 +186,7 @@ func (cs *Case) wellFormed() error {
 	if cs.F == "gnosis" {
 		fields["slot"], fields["txptr"] = true, true
 	}
-	if !fields[cs.Mut] {
+	if !fields[cs.Mut] && cs.Mut != "idlen" {
 		return fmt.Errorf("mut %q", cs.Mut)
 	}
 	for _, s := range cs.Sigs {
@@ -270,6 +279,9 @@ func parseTLARecord(s string) (*Case, error) {
 	}
 	if cs.Sigs == nil {
 		cs.Sigs = []Sig{}
+	}
+	if len(cs.Ann) == 0 {
+		cs.Ann = []string{"S"}
 	}
 	return &cs, nil
 }
